@@ -225,7 +225,10 @@ inline flat::State gen_state(vf::Stream& s, unsigned density = 8) {
             st[f] = gen_u16(s);
         else if (bits == 32)
             st[f] = s.chance(1, 4) ? (uint64_t)(gen_u16(s)) << 16 | gen_u16(s) : s.bits(32);
-        else
+        else if (bits >= 4) { // narrow multi-bit fields (steps, moduli, counters): their extremes are boundary values too
+            unsigned k = (unsigned)s.below(10);
+            st[f] = k == 0 ? 0 : (k == 1 ? (1ull << bits) - 1 : (k == 2 ? 1 : s.bits(bits)));
+        } else
             st[f] = s.bits(bits);
     }
     if (density >= 8 || s.chance(1, 2))
